@@ -237,6 +237,7 @@ func (w *World) pathOf(ti, oi int) string {
 func Materialise(p *Plan, realDir string) *World {
 	w := &World{Plan: p, RealDir: realDir}
 	shimtime.Reset()
+	model.Flag.Store(0)
 	for _, in := range p.Shared {
 		w.Shared = append(w.Shared, withCanary(in.Bytes()))
 	}
@@ -689,6 +690,9 @@ func (w *World) exec(t *core.Task, ti, oi int) {
 		t.OpInvoke(oi, tag)
 		mimetype.SetLimit(op.Limit)
 		t.OpReturn(oi)
+	case "setflag":
+		// the caller's own switch, consulted by FlagEq detectors
+		model.Flag.Store(int32(op.Limit))
 	case "ambient":
 		// a change of process-wide state that is none of the library's business (real, not simulated)
 		kind, arg, _ := strings.Cut(op.Name, ":")
